@@ -2357,6 +2357,21 @@ func (fr *Frame) execConvert(st *State, x *ssa.Convert) {
 		u.note("float->int conversion: truncation over reals, range not modelled")
 	case fs == sReal && ts == sReal, fs == sStr && ts == sStr:
 		fr.vals[x] = Val{v.T, x.Type(), ""}
+	case fs == sStr && ts == sSlice && !isByteSlice(x.Type()): // []rune(s): between len(s)/4 and len(s) runes, contents not modelled
+		r := u.alloc(st)
+		n := u.fresh("runes", sInt)
+		u.assume(st, and(sx("<=", "0", n), sx("<=", n, sx("slen", v.T)), sx("<=", sx("slen", v.T), sx("*", "4", n))))
+		fr.vals[x] = Val{u.define("runeslice", sSlice, sx("mkslice", r, "0", n, n)), x.Type(), ""}
+		et := x.Type().Underlying().(*types.Slice).Elem()
+		es := u.sortOf(et)
+		hn, hs := u.elemHeapName(et), "(Array Int (Array Int "+es+"))"
+		u.hset(st, hn, hs, store(u.hget(st, hn, hs), r, u.fresh("runes_arr", "(Array Int "+es+")")))
+		u.note("conversion []rune(string): length between len/4 and len, contents abstracted")
+	case fs == sSlice && ts == sStr && !isByteSlice(x.X.Type()): // string([]rune): 1 to 4 bytes per rune, contents not modelled
+		r := u.freshVal(st, "runestring", x.Type())
+		u.assume(st, and(sx("<=", sx("s_len", v.T), sx("slen", r.T)), sx("<=", sx("slen", r.T), sx("*", "4", sx("s_len", v.T)))))
+		fr.vals[x] = r
+		u.note("conversion string([]rune): length between len and 4*len, contents abstracted")
 	case fs == sStr && ts == sSlice: // []byte(s)
 		r := u.alloc(st)
 		sl := u.define("bytes", sSlice, sx("mkslice", r, "0", sx("slen", v.T), sx("slen", v.T)))
@@ -2380,6 +2395,16 @@ func (fr *Frame) execConvert(st *State, x *ssa.Convert) {
 			fr.vals[x] = u.freshVal(st, "conv", x.Type())
 		}
 	}
+}
+
+// isByteSlice: a slice type whose elements are bytes (uint8).
+func isByteSlice(t types.Type) bool {
+	sl, ok := t.Underlying().(*types.Slice)
+	if !ok {
+		return false
+	}
+	b, ok := sl.Elem().Underlying().(*types.Basic)
+	return ok && b.Kind() == types.Uint8
 }
 
 // box wraps a value into the Any datatype according to its static type.
